@@ -383,6 +383,15 @@ pub(crate) struct LogReader {
     processed (e.g. during database recoveries).
     */
     current_block_offset: usize,
+
+    /**
+    True if the end of the file was reached in the middle of a fragment i.e. the file ends with a
+    torn write.
+
+    Records appended behind such a tail would not be readable so the file must not be reused for
+    writing.
+    */
+    ended_mid_fragment: bool,
 }
 
 /// Public methods
@@ -408,9 +417,15 @@ impl LogReader {
             initial_offset: initial_block_offset,
             current_cursor_position: initial_block_offset,
             current_block_offset: 0,
+            ended_mid_fragment: false,
         };
 
         Ok(reader)
+    }
+
+    /// Returns true if the end of the log file was reached in the middle of a fragment.
+    pub fn ended_mid_fragment(&self) -> bool {
+        self.ended_mid_fragment
     }
 
     /**
@@ -533,6 +548,7 @@ impl LogReader {
         if header_bytes_read < HEADER_LENGTH_BYTES {
             // The end of the file was reached before we were able to read a full header. This
             // can occur if the log writer died in the middle of writing the record.
+            self.ended_mid_fragment = header_bytes_read > 0;
             let err_msg = format!(
                 "Unexpectedly reached the end of the log file at {log_file_path:?} while \
                 attempting to read a header.",
@@ -554,6 +570,7 @@ impl LogReader {
         if data_bytes_read < data_length {
             // The end of the file was reached before we were able to read a full data chunk. This
             // can occur if the log writer died in the middle of writing the record.
+            self.ended_mid_fragment = true;
             let err_msg = format!(
                 "Unexpectedly reached the end of the log file at {log_file_path:?} while \
                 attempting to read the data chunk.",
